@@ -81,7 +81,32 @@ package datastore
 //@   ensures !muHeld
 //@   modifies muHeld
 //@   tags C16
-//@ apply Locked: (*concurrentTxn).Delete, (*concurrentTxn).Get, (*concurrentTxn).Has, (*concurrentTxn).Set
+//@ apply Locked: (*concurrentTxn).Delete, (*concurrentTxn).Get, (*concurrentTxn).Has, (*concurrentTxn).Set, (*concurrentTxn).Iterator
+//@ // the callback lists of a transaction are appended to and read under callbackMu (a transaction may be
+//@ // shared by concurrent calls); the lock is not held while the callbacks run
+//@ apply Locked: (*BasicTxn).Commit, (*BasicTxn).Discard, (*BasicTxn).OnSuccess, (*BasicTxn).OnError, (*BasicTxn).OnDiscard,
+//@   (*BasicTxn).OnSuccessAsync, (*BasicTxn).OnErrorAsync, (*BasicTxn).OnDiscardAsync
+//@ func (*BasicTxn).OnSuccess
+//@   ensures called(Lock, 1)
+//@   tags C16
+//@ func (*BasicTxn).OnError
+//@   ensures called(Lock, 1)
+//@   tags C16
+//@ func (*BasicTxn).OnDiscard
+//@   ensures called(Lock, 1)
+//@   tags C16
+//@ func (*BasicTxn).OnSuccessAsync
+//@   ensures called(Lock, 1)
+//@   tags C16
+//@ func (*BasicTxn).OnErrorAsync
+//@   ensures called(Lock, 1)
+//@   tags C16
+//@ func (*BasicTxn).OnDiscardAsync
+//@   ensures called(Lock, 1)
+//@   tags C16
+//@ // creating an iterator walks the pending writes of the embedded transaction: under the mutex as well
+//@ func (*concurrentTxn).Iterator
+//@   assert before call#1 Iterator: muHeld
 //@ func (*concurrentTxn).Delete
 //@   assert before call#1 Delete: muHeld
 //@ func (*concurrentTxn).Get
